@@ -1630,8 +1630,11 @@ func (l *lexer) linebreak() bool {
 			l.comment(hash)
 			hash = false
 			l.mark(0)
-			if l.heredoc.exists() && !l.scanHeredoc() {
-				return false
+			if l.heredoc.exists() {
+				if !l.scanHeredoc() {
+					return false
+				}
+				l.mark(0)
 			}
 		case '#':
 			// comment
